@@ -119,33 +119,30 @@ theorem C20_masters_disjoint (c : VCfg) (s : VState) (m : Nat) (vec : List (Opti
 /-! ## masters bound to an explicit connection (second database, transaction) -/
 
 /-- **every database keeps its own exact history** — masters made with `connection=` included: for
-    every interleaving of operations over any number of databases in which every restore is on the
-    default database and no update fails in database `d`, the versions of a master of `d` followed by
-    its current row are exactly its history; operations on other databases change nothing in `d`. -/
-theorem C20_versions_are_history_per_connection (c : VCfg) (ops : List (Nat × VOp)) (hloc : restoresLocal ops = true)
+    every interleaving of operations (restores included) over any number of databases in which no
+    update fails in database `d`, the versions of a master of `d` followed by its current row are
+    exactly its history; operations on other databases change nothing in `d`. -/
+theorem C20_versions_are_history_per_connection (c : VCfg) (ops : List (Nat × VOp))
     (d : Nat) (hnf : noFailedUpdate c vinit ((ops.filter (fun p => p.1 = d)).map (·.2)) = true)
     (m : Nat) (row : List Val) (hm : rowOf? ((drun c dinit ops) d).masters m = some row) :
     versionsOf ((drun c dinit ops) d) m ++ [row] = ((drun c dinit ops) d).hist m := by
-  rw [drun_proj c ops dinit hloc d] at hm ⊢
+  rw [drun_proj c ops dinit d] at hm ⊢
   exact C20_versions_are_history_partial c _ hnf m row hm
 
-/-- restoring a version makes the master *of the version's own database* equal to it -/
-def RestoreRespectsConnection : Prop :=
-  ∀ (c : VCfg) (ops : List (Nat × VOp)) (d vid : Nat) (v : VRow),
-    ((drun c dinit ops) d).versions.find? (fun v => v.vid = vid) = some v →
-    (dstep c (drun c dinit ops) d (.restore vid)).2 = .ok →
-    rowOf? ((dstep c (drun c dinit ops) d (.restore vid)).1 d).masters v.master = some v.vals
-
-/-- **false of the code** for a database other than the default one: `Version.restore()` fetches
-    the master through the class's default connection.  Witness: `a = M(c0=1)`; `b = M(c0=10,
-    connection=other)`; `b.c0 = 11`; restoring b's first version overwrites `a` and leaves `b` at 11.
-    (Replayed on the real code every run: `C20:restore-ignores-explicit-connection`.) -/
-theorem C20_restore_explicit_connection_full_FALSE : ¬ RestoreRespectsConnection := by
-  intro h
-  have := h ⟨1, [.null], false⟩ [(0, .create [(0, .int 1)]), (1, .create [(0, .int 10)]), (1, .assign 1 0 (.int 11))]
-    1 1 ⟨1, 1, [.int 10]⟩ (by decide) (by decide)
-  revert this
-  decide
+/-- **restore respects the connection** (fix 14bb19e): restoring a version found in database `d`
+    makes the master *of database `d`* equal to it, records the overwritten state as the newest
+    version in `d`, and leaves every other database exactly as it was. -/
+theorem C20_restore_spec_per_connection (c : VCfg) (S : DState) (d vid : Nat) (v : VRow) (row : List Val)
+    (hv : (S d).versions.find? (fun v => v.vid = vid) = some v)
+    (hr : rowOf? (S d).masters v.master = some row) (hlen : row.length = v.vals.length)
+    (hok : (dstep c S d (.restore vid)).2 = .ok) :
+    rowOf? ((dstep c S d (.restore vid)).1 d).masters v.master = some v.vals
+    ∧ ((dstep c S d (.restore vid)).1 d).versions = (S d).versions ++ [⟨(S d).nextV, v.master, row⟩]
+    ∧ ∀ d', d' ≠ d → (dstep c S d (.restore vid)).1 d' = S d' := by
+  have h := C20_restore_spec c (S d) vid v row hv hr hlen (by simpa [dstep, vstep] using hok)
+  refine ⟨by simpa [dstep, dset, vstep] using h.1, by simpa [dstep, dset, vstep] using h.2.1, ?_⟩
+  intro d' hd
+  simp [dstep, dset, hd]
 
 /-! ## non-vacuity -/
 
